@@ -203,6 +203,24 @@ def model_cmp(t, a, b):
     return None
 
 
+def model_to_str(t, m, sep):
+    """documented renderings (sequence.md / tuple.md): items separated by commas, in square brackets / parentheses; None where the book gives no format"""
+    k = t.kind
+    if k == "int":
+        return str(m)
+    if k == "str":
+        return m
+    if k == "bool":
+        return "true" if m else "false"
+    if k == "tuple":
+        parts = [model_to_str(a, x, sep) for a, x in zip(t.args, m)]
+        return None if None in parts else "(" + sep.join(parts) + ")"
+    if k == "seq":
+        parts = [model_to_str(t.args[0], x, sep) for x in m]
+        return None if None in parts else "[" + sep.join(parts) + "]"
+    return None
+
+
 RELS = ["eq", "ne", "hash", "cmp", "lt", "le", "gt", "ge", "min", "max", "to_str", "format"]
 
 
@@ -329,6 +347,12 @@ def check_laws(it, row):
             bad.append("cmp_not_transitive")
         if c01 >= 0 and c12 >= 0 and c02 < 0:
             bad.append("cmp_not_transitive")
+    for i in range(3):
+        ts = g("to_str", i, i)
+        if ts is not None:
+            want = {model_to_str(t, m[i], ", "), model_to_str(t, m[i], ",")}
+            if None not in want and ts not in want:
+                bad.append("to_str_is_not_the_component_wise_rendering")
     if g("format", 0, 0) is not None and g("format", 0, 0) != g("to_str", 0, 0):
         bad.append("format_empty_differs_from_to_str")
     for i in range(3):
